@@ -16,6 +16,8 @@ CONSTANTS
   HistLens = {2, 3}
 INVARIANT HistLoaded
 INVARIANT HistNeverHalf
+INVARIANT HistFlagExact
+PROPERTY FlagNeverLowered
 INVARIANT VersionFollowsHeader
 INVARIANT HistReadInverts
 INVARIANT ReaderBounded
